@@ -1,8 +1,10 @@
 pub mod compile;
 pub mod maps;
 pub mod modules;
+pub mod natives;
 pub mod sem;
 pub mod stack;
+pub mod stdlib;
 pub mod trace;
 pub mod values;
 pub mod vm;
@@ -24,6 +26,8 @@ pub fn all() -> Vec<Box<dyn Engine>> {
         Box::new(vm::GcEngine),
         Box::new(sem::SemEngine),
         Box::new(trace::TraceEngine),
+        Box::new(natives::NatEngine),
+        Box::new(stdlib::StdEngine),
     ]
 }
 
